@@ -33,6 +33,7 @@ type JobRec struct {
 	Q        int
 	It       *Item
 	Group    int // -1 for single jobs
+	BatchIdx int // position inside its batch / among the pre-loaded items
 	Pre      bool
 	Add      CallRec // the add / addall call
 	Accepted int     // 1 accepted, 0 rejected, -1 unknown
@@ -117,10 +118,10 @@ func BuildIndex(r *Result) *Index {
 		}
 		return j
 	}
-	for _, it := range r.Case.Cfg.PreItems {
+	for i, it := range r.Case.Cfg.PreItems {
 		it := it
 		j := job(it.N)
-		j.It, j.Q, j.Pre, j.Accepted = &it, 0, true, 1
+		j.It, j.Q, j.Pre, j.Accepted, j.BatchIdx = &it, 0, true, 1, i
 	}
 	for pos, ev := range r.Hist {
 		switch ev.K {
@@ -196,10 +197,10 @@ func BuildIndex(r *Result) *Index {
 		case "addall":
 			g := &GroupRec{G: c.G, Q: c.Q, Add: c}
 			ix.Groups[c.G] = g
-			for _, it := range opItems[c.G] {
+			for bi, it := range opItems[c.G] {
 				it := it
 				j := job(it.N)
-				j.It, j.Q, j.Add, j.Group = &it, c.Q, c, c.G
+				j.It, j.Q, j.Add, j.Group, j.BatchIdx = &it, c.Q, c, c.G, bi
 				g.Items = append(g.Items, it.N)
 			}
 		case "close":
